@@ -47,7 +47,9 @@ def parseDec64 (s : String) : Option (BitVec 64) :=
   | some v => if -(2^63 : Int) ≤ v ∧ v < 2^63 then some (BitVec.ofInt 64 v) else none
   | none => none
 
-def ops : CelloGen.Cmp.FloatOps UInt64 := hwFloatOps
+/-- IEEE-754 subtraction on the bit patterns (`Cello.Cmp.roundedOps`, exact difference of the decoded values; the theorems
+    of C09 are about these operations), not the machine's `Float` -/
+def ops : CelloGen.Cmp.FloatOps UInt64 := ieeeOps
 
 /-- the traversal discipline of the comparison loops, as read off the source that is in /repo now -/
 def disc : CelloGen.Cmp.Discipline := CelloGen.CmpLoops.sourceDiscipline
@@ -69,6 +71,27 @@ def parseName (cs : List Char) : Option Nat :=
 def pairUp : List Val → List (Val × Val)
   | a :: b :: tl => (a, b) :: pairUp tl
   | _ => []
+
+/-- key (a scalar: its content) and value OBJECT of each entry -/
+def pairUpObj : List Slot → List (Val × Obj)
+  | a :: b :: tl => (a.2.content, b.2) :: pairUpObj tl
+  | _ => []
+
+def isVal : Obj → Bool
+  | .val _ => true
+  | _ => false
+
+/-- the elements of an Array / List are its own copies: fresh identities, numbered from `n`; what the copies reference
+    (the slots of a copied Tuple) is shared with the source -/
+def reId (n : Nat) : List Slot → List Slot
+  | [] => []
+  | s :: rest => (n, s.2) :: reId (n + 1) rest
+
+/-- an Array / List built from the given element objects: a plain value when no element has parts of its own that can be
+    shared (Tuples: Tuple_Assign copies the item pointers), else a container of objects -/
+def mkCont (k : SeqKind) (slots : List Slot) (st : PState) : Obj × PState :=
+  if slots.all (fun s => isVal s.2) then (.val (.seq k (contents slots)), st)
+  else (.cont k (reId st.next slots), { st with next := st.next + slots.length })
 
 mutual
 /-- one value term -> the object (with its identity), the new state, the remaining tokens.
@@ -111,12 +134,12 @@ partial def parseObj (st : PState) (toks : List String) : Option (Slot × PState
       | none => none
     | 'A' :: n => match parseCount n with
       | some cnt => match parseMany cnt st rest [] with
-        | some (slots, st', rest') => fresh (.val (.seq .array (contents slots))) st' rest'     -- an Array holds copies
+        | some (slots, st', rest') => let (o, st'') := mkCont .array slots st'; fresh o st'' rest'   -- an Array holds copies
         | none => none
       | none => none
     | 'L' :: n => match parseCount n with
       | some cnt => match parseMany cnt st rest [] with
-        | some (slots, st', rest') => fresh (.val (.seq .list (contents slots))) st' rest'      -- a List holds copies
+        | some (slots, st', rest') => let (o, st'') := mkCont .list slots st'; fresh o st'' rest'    -- a List holds copies
         | none => none
       | none => none
     | 'T' :: n => match parseCount n with
@@ -129,7 +152,9 @@ partial def parseObj (st : PState) (toks : List String) : Option (Slot × PState
         | some (slots, st', rest') =>
           -- the validity rule is evaluated on the entries as written (the harness does the same), then the Tree is built
           let kvs := pairUp (contents slots)
-          if (Val.tree kvs).valid then fresh (.val (.tree (treeOf (valCmp ops) kvs))) st' rest' else none
+          if !(Val.tree kvs).valid then none
+          else if slots.all (fun s => isVal s.2) then fresh (.val (.tree (treeOf (valCmp ops) kvs))) st' rest'
+          else fresh (.tree (treeOf (valCmp ops) (pairUpObj slots))) st' rest'        -- values that are Tuples: copies that share their items
         | none => none
       | none => none
     | _ => none
@@ -211,6 +236,7 @@ def isExc : Option Res → Bool
 def showRes : Option Res → String
   | some (.ok c) => toString (sgn c)
   | some (.exc n) => n
+  | some .outside => "?"
   | none => "H"
 
 /-- may the pair be compared?  Position by position both must be of one kind (`comparable`); where one of two sequences is a
@@ -221,11 +247,18 @@ partial def okPair (a b : Obj) : Bool :=
   | some (_, s0), some (_, s1) =>
     if !(idsNodup s0) || !(idsNodup s1) then s0.all fun x => s1.all fun y => okPair x.2 y.2
     else okZip s0 s1
-  | none, none => comparable a.content b.content
+  | none, none =>
+    match a.treeView, b.treeView with
+    | some e0, some e1 => okEnts e0 e1         -- two Trees: entry by entry in iteration order, key with key, value with value
+    | none, none => comparable a.content b.content
+    | _, _ => false
   | _, _ => false
 where
   okZip : List Slot → List Slot → Bool
     | x :: xs, y :: ys => okPair x.2 y.2 && okZip xs ys
+    | _, _ => true
+  okEnts : List (Val × Obj) → List (Val × Obj) → Bool
+    | x :: xs, y :: ys => comparable x.1 y.1 && okPair x.2 y.2 && okEnts xs ys
     | _, _ => true
 
 def runnableObj (a b : Obj) : Bool :=
